@@ -472,8 +472,15 @@ fn random_project(rng: &mut Rng) -> Project {
             for _ in 0..m {
                 let x = rng.below(45);
                 if x == 0 {
-                    spreads.push(UNDEFINED[rng.below(UNDEFINED.len())].to_string());
+                    let u = rng.below(UNDEFINED.len());
+                    spreads.push(UNDEFINED[u].to_string());
                     features.insert("undefined-spread");
+                    if rng.coin() {
+                        // a second, different undefined name: the code reports the FIRST in document order
+                        let at = rng.below(spreads.len() + 1);
+                        spreads.insert(at, UNDEFINED[(u + 1 + rng.below(UNDEFINED.len() - 1)) % UNDEFINED.len()].to_string());
+                        features.insert("two-undefined-spreads");
+                    }
                 } else if x == 1 && !everything.is_empty() {
                     spreads.push(everything[rng.below(everything.len())].clone());
                     features.insert("spread-of-a-name-not-imported-here");
@@ -1359,10 +1366,19 @@ pub fn evaluate(drv: &mut Driver, exe: &PathBuf, cases: &[Case]) -> Vec<Outcome>
     let header = json!({ "pool": pool, "paths": paths }).to_string();
     let n_workers = if lines.len() < 64 { 1 } else { std::thread::available_parallelism().map(|n| n.get()).unwrap_or(1).min(4) };
     let mut wp = WorkerPool::new(Cfg { exe: exe.clone(), header }, n_workers);
+    let tm = std::time::Instant::now();
     let (model, real) = std::thread::scope(|s| {
-        let m = s.spawn(|| drv.batch(&reqs));
+        let m = s.spawn(|| {
+            let a = drv.batch(&reqs);
+            (a, tm.elapsed().as_secs_f64())
+        });
         let r = wp.run_histories(&lines);
-        (m.join().expect("driver thread"), r)
+        let tr = tm.elapsed().as_secs_f64();
+        let (a, tmod) = m.join().expect("driver thread");
+        if std::env::var("C19_CONCRETE_TIMES").is_ok() {
+            eprintln!("concrete: {} histories, model {tmod:.2}s real {tr:.2}s", lines.len());
+        }
+        (a, r)
     });
     wp.shutdown();
     let dead = RealResp::Dead;
@@ -1512,7 +1528,7 @@ pub fn run(rep: &mut Report, drv: &mut Driver, exe: &PathBuf, rng: &mut Rng, tho
     for c in &cases {
         rep.count(&format!("concrete:hist:{}", c.origin));
     }
-    let n_projects = if thorough { 1500 } else { 160 };
+    let n_projects = if thorough { 1500 } else { 120 };
     let mut sampled = 0;
     for _ in 0..n_projects {
         let p = random_project(rng);
